@@ -173,10 +173,27 @@ func oracleC12Proto(l *harness.Live) (seq []int, f *harness.Failure) {
 	re := &xast.Call{Name: "reverse", Args: []xast.Expr{l.AST}}
 	rl := *l
 	rl.AST, rl.Expr = re, xast.Render(re)
-	rids, f := engineSelect(&rl)
+	rexpr, f := compileLive(&rl)
 	if f != nil {
 		f.Note = "reverse(e): " + f.Note
 		return nil, f
+	}
+	rids, f := selectWith(rexpr, &rl)
+	if f != nil {
+		f.Note = "reverse(e): " + f.Note
+		return nil, f
+	}
+	// the same compiled reverse(e): Evaluate and a second Select must agree with the first
+	if rv, f := evalWith(rexpr, &rl); f != nil {
+		f.Note = "reverse(e) Evaluate: " + f.Note
+		return nil, f
+	} else if rv.Kind != "nodes" || !harness.EqualInts(rv.IDs, rids) {
+		return nil, harness.Failf(describe(l.Doc, rids), rv.String(), "Evaluate of reverse(e) yields a different sequence than its Select")
+	}
+	if again, f := selectWith(rexpr, &rl); f != nil {
+		return nil, f
+	} else if !harness.EqualInts(again, rids) {
+		return nil, harness.Failf(describe(l.Doc, rids), describe(l.Doc, again), "a second Select of the same compiled reverse(e) yields a different sequence")
 	}
 	rev := make([]int, len(seq))
 	for i, id := range seq {
